@@ -68,12 +68,21 @@ pub fn gen_content_case(tape: &[u8]) -> ContentCase {
             if t.chance(55) {
                 let b = block(format!("en:{}", s.id), t, acc);
                 s.onentry = vec![b];
+                if t.chance(35) {
+                    // a second <onentry> block: an error in the first one must not touch it
+                    let b2 = block(format!("en2:{}", s.id), t, acc);
+                    s.onentry.push(b2);
+                }
             } else {
                 s.onentry = vec![vec![C::Mark { tag: format!("en:{}", s.id), args: vec![] }]];
             }
             if t.chance(35) {
                 let b = block(format!("ex:{}", s.id), t, acc);
                 s.onexit = vec![b];
+                if t.chance(35) {
+                    let b2 = block(format!("ex2:{}", s.id), t, acc);
+                    s.onexit.push(b2);
+                }
             } else {
                 s.onexit = vec![vec![C::Mark { tag: format!("ex:{}", s.id), args: vec![] }]];
             }
